@@ -19,6 +19,12 @@ def strip_annotations(rng, src):
 
 
 HAND = [
+    # fix 64720dd: literals nested in a compound expression take the type the expression is constrained to
+    "pub fn main(a0: u8) -> u8 { (10u8 ^ 5) >> ((5 * 7u8) + (5 * 7)) }",
+    "pub fn main(a4: i64, c: bool) -> i64 { (a4 * a4) << (if c { 7 } else { 2 }) }",
+    "pub fn main(x: u8) -> u8 { let y = 1 + 2 + x; y }",
+    "pub fn main(a: [u8; 4], c: bool) -> u8 { a[1 + (if c { 1 } else { 2 })] }",
+    "pub fn main(x: i16, c: bool) -> i16 { match c { true => -(1 + 2), false => x } + x }",
     # fix 7bf4e4f: an unsuffixed range takes the element type of the array type it is used at
     "pub fn main(x: u8) -> [u8; 3] { let a: [u8; 3] = 2..5; a }",
     "pub fn main(x: u8) -> [u16; 4] { let a: [u16; 4] = 250..254; a }",
